@@ -1723,12 +1723,12 @@ func (e *Enc) sliceOp(x *ssa.Slice) {
 		e.oblige("nil", desc, "", x.Pos(), e.guardGoal(app("distinct", v.T, "nil")))
 		e.oblige("slice", desc, "", x.Pos(), e.guardGoal(and(app("<=", "0", lo), app("<=", lo, hi), app("<=", hi, mx), app("<=", mx, n))))
 		r := e.define(x, app("mkslice", v.T, lo, app("-", hi, lo), app("-", mx, lo)))
-		if e.token && typeKey(arr.Elem()) == "uint8" && arr.Len() <= 16 {
+		if al, isAl := x.X.(*ssa.Alloc); isAl && e.token && typeKey(arr.Elem()) == "uint8" && onlySliced(al, x) {
+			// make([]byte, n) / make([]byte, n, N): a fresh zeroed array that is reachable through this slice only
+			e.setBytes(e.cur, r.T, app("bzeros", app("-", hi, lo)))
+		} else if e.token && typeKey(arr.Elem()) == "uint8" && arr.Len() <= 16 {
 			// a byte-array literal: its content is the cells as they are now
 			e.setBytes(e.cur, r.T, e.bytesExpand(e.cur, r.T, int(arr.Len())))
-		} else if al, isAl := x.X.(*ssa.Alloc); isAl && e.token && typeKey(arr.Elem()) == "uint8" && onlySliced(al, x) {
-			// make([]byte, n, N): a fresh zeroed array that is reachable through this slice only
-			e.setBytes(e.cur, r.T, app("bzeros", app("-", hi, lo)))
 		}
 	default:
 		e.unsupp("slice of %s", x.X.Type())
